@@ -93,7 +93,7 @@ class PyEq(object):
         return self.d[k]
 
 
-_OUT_DEFAULTS = dict(exc="", exc_type="", timeout=False)
+_OUT_DEFAULTS = dict(exc="", exc_type="", timeout=False, unreadable="")
 _AGAIN_DEFAULTS = dict(ok=False, exc="", ran=False)
 
 
@@ -205,7 +205,11 @@ def encode_event(cd, id_, src, orig=None, sem_of=None):
     e["none_tok"] = none_tok
     e["out"] = out
     if code is not None:
-        e["c"] = D.cpy_reading(code, it)
+        try:
+            e["c"] = D.cpy_reading(code, it)
+        except BaseException as ex:  # noqa  (dis itself fails, e.g. an operand outside its table)
+            e["c"] = EMPTY_C
+            out["unreadable"] = "%s: %s" % (type(ex).__name__, ex)
         insp = dict(D._INSP_DEFAULTS)
         insp.update(D.inspect_reading(code, it))
         e["insp"] = insp
@@ -389,6 +393,26 @@ def units_to_file(cases, path):
             evs.append(fromcode_failure(c["id"], ex))
             continue
         ev, _ = encode_event(cd, c["id"], "decoded", orig=code)
+        evs.append(ev)
+    _dump(evs, path)
+    return len(evs)
+
+
+CONST_OF = {50: 1, 51: True, 52: 2}
+
+
+def overrides_to_file(cases, path):
+    """MC_Overrides states: straight-line LOAD_CONSTs with hand-set position overrides"""
+    from code_data import CodeData, Constant, Instruction
+
+    evs = []
+    for c in cases:
+        ins = tuple(Instruction("LOAD_CONST", Constant(CONST_OF[v], None if o < 0 else o), line_number=1) for v, o in c["prog"])
+        cd = CodeData(blocks=(ins + (Instruction("RETURN_VALUE", line_number=1),),), filename="<ovr>", first_line_number=1,
+                      name="o", stacksize=len(ins) + 1)
+        ev, _ = encode_event(cd, c["id"], "hand")
+        ev["model"] = {"has": False, "passes": -1, "jumpargs": []}
+        ev["model_raises"] = c.get("raises", False)
         evs.append(ev)
     _dump(evs, path)
     return len(evs)
